@@ -13,7 +13,7 @@ import ast
 from ..cfg import cfg_of
 from ..flow import flow_of, path_of
 from ..loader import FUNC, AnalysisError, dotted, last_name, loc, short, walk_local, enclosing_stmt
-from ..util import REPEX, SETUP, TIS, is_self_attr, kwarg, last_key
+from ..util import ASE, REPEX, SETUP, TIS, is_self_attr, kwarg, last_key
 from ..variants import B, K
 
 EXPLANATION = (
@@ -393,6 +393,7 @@ def r113(ctx):
 
 def run(ctx):
     ctx.rule("R-11.4", "QuanTIS acceptance: each energy difference is weighted with the beta of the engine of its own level", floor=2)
+    ctx.rule("R-11.5", "the engines' velocity-reversal codecs negate exactly the velocities (shared with C19 R-19.5): time reversal used by the zero swap is an involution", floor=5)
     ctx.rule("R-11.1", "lambda_-1 early rejection precedes any engine call; quantis + lambda_-1 excluded by configuration", floor=3)
     ctx.rule("R-11.2", "the crossing frames are taken from the right ends of the old paths, as copies, on the right side of the propagated segments", floor=5)
     ctx.rule("R-11.3", "zero swap only when the partner is idle; flag <=> status in both swap functions (shared rules)", floor=10)
@@ -400,9 +401,13 @@ def run(ctx):
     ctx.attempt(r112, ctx)
     ctx.attempt(r113, ctx)
     ctx.attempt(r114, ctx)
+    from . import c19
+    from .shared import RuleProxy
+    ctx.attempt(c19.r195, RuleProxy(ctx, "R-11.5", " (a zero swap re-uses stored velocities in the opposite time direction: swapping twice would not restore the order-parameter sequence)"))
 
 
 VARIANTS = [
+    B("c11-ase-reverse-momenta-mixup", ASE, "        vel = atoms.get_velocities()\n        atoms.set_velocities(-vel)\n        write(outfile, atoms)", "        atoms.set_momenta(-atoms.get_velocities())\n        write(outfile, atoms)", "R-11.5", control=True, why="seeded C11_c"),
     B("c11-early-reject-after-propagate", TIS, '    # if lambda_minus_one, reject early if path_old0\n    if set(ens_set0["start_cond"]) == set(["L", "R"]):\n        if path_old0.check_interfaces(ens_set0["interfaces"])[1] == "L":\n            return False, [path_old0, path_old1], "0-L"\n', "", "R-11.1", control=True,
       also=[(TIS, '    path0 = path_tmp.empty_path(maxlen=maxlen0)\n    for phasepoint in reversed(path_tmp.phasepoints):', '    if set(ens_set0["start_cond"]) == set(["L", "R"]):\n        if path_old0.check_interfaces(ens_set0["interfaces"])[1] == "L":\n            return False, [path_old0, path_old1], "0-L"\n    path0 = path_tmp.empty_path(maxlen=maxlen0)\n    for phasepoint in reversed(path_tmp.phasepoints):')]),
     B("c11-early-reject-removed", TIS, '        if path_old0.check_interfaces(ens_set0["interfaces"])[1] == "L":\n            return False, [path_old0, path_old1], "0-L"\n', '        if path_old0.check_interfaces(ens_set0["interfaces"])[1] == "L":\n            logger.info("0-L")\n', "R-11.1"),
